@@ -93,6 +93,7 @@ func init() {
 		Level: "exploration",
 		Rule: "seeded single-RPC scenarios on the dynamic sim service (client form x method shape x service protocol/codec/compression subsets x messages), each run twice: " +
 			"(in a third of the runs under a message-size limit just above the largest single message) atomically and under drawn segmentations of the request deliveries, handler read-buffer sizes, handler write pieces/flushes, response-writer flavour, pool and scheduling policy; " +
+			"thorough additionally enumerates every one-dimensional segmentation (split offset, piece size, read-buffer size, write mode, flush, writer flavour) on the small corpus that covers every adapter path; " +
 			"distinct = (form>target/adapter path/shape, schedule hash); non-trivial = at least one request message decoded by the backend and one response message decoded by the client",
 		Gen: func(c *Chooser, tier string) *Plan {
 			p := genScenario(c, ScenOpts{Segment: true, MaxMsgs: 3, MaxBytes: 200})
@@ -112,6 +113,76 @@ func init() {
 				p.Config.Services[0].MaxMsg = uint32(largest + 64)
 			}
 			return p
+		},
+		// thorough: on the small corpus of C09 (every adapter path, one or two messages each way, plus a variant of each
+		// stream with an empty message in the middle) every one-dimensional segmentation is enumerated: the request
+		// delivered in two pieces split at every offset and in equal pieces of 1..8 bytes; the handler reading with
+		// buffers of 1..8, 16 and 64 bytes; the handler writing frame by frame, prefix and payload apart, and in pieces
+		// of 1..8 bytes, with and without a flush after every piece; each response-writer flavour.
+		Exhaustive: func(tier string) []*Plan {
+			var out []*Plan
+			add := func(base *Plan, edit func(r *RPCPlan)) {
+				p := base.clone()
+				p.Note = ""
+				edit(&p.RPCs[0])
+				out = append(out, p)
+			}
+			var corpus []*Plan
+			for _, base := range c09Corpus() {
+				corpus = append(corpus, base)
+				rc := &base.RPCs[0]
+				if len(rc.Client.Msgs) > 1 || len(rc.Backend.Resp.Msgs) > 1 {
+					v := base.clone()
+					if n := len(v.RPCs[0].Client.Msgs); n > 1 {
+						v.RPCs[0].Client.Msgs = append([]MsgSpec{v.RPCs[0].Client.Msgs[0], {Data: []byte{}, Compressed: true}}, v.RPCs[0].Client.Msgs[1:]...)
+					}
+					if n := len(v.RPCs[0].Backend.Resp.Msgs); n > 1 {
+						v.RPCs[0].Backend.Resp.Msgs = append([]MsgSpec{v.RPCs[0].Backend.Resp.Msgs[0], {Data: []byte{}, Compressed: false}}, v.RPCs[0].Backend.Resp.Msgs[1:]...)
+					}
+					corpus = append(corpus, v)
+				}
+			}
+			for _, base := range corpus {
+				base.Pool.Poison = true
+				body, _, st := effectiveRequestBody(&base.Config, &base.RPCs[0])
+				if st.Rejected != "" {
+					continue
+				}
+				for k := 1; k < len(body); k++ {
+					k := k
+					add(base, func(r *RPCPlan) { r.Client.Deliveries = []int{k, len(body)} })
+				}
+				for n := 1; n <= 8; n++ {
+					n := n
+					add(base, func(r *RPCPlan) { r.Client.Deliveries = []int{n} })
+					add(base, func(r *RPCPlan) { r.Client.Deliveries, r.Client.EOFWithData = []int{n}, true })
+					add(base, func(r *RPCPlan) { r.Backend.ReadSizes = []int{n} })
+					for _, fl := range []int{0, 1} {
+						fl := fl
+						add(base, func(r *RPCPlan) {
+							r.Backend.Resp.WriteMode, r.Backend.Resp.WriteSizes, r.Backend.Resp.FlushEvery = "sizes", []int{n}, fl
+						})
+					}
+				}
+				for _, n := range []int{16, 64} {
+					n := n
+					add(base, func(r *RPCPlan) { r.Backend.ReadSizes = []int{n} })
+				}
+				for _, mode := range []string{"frames", "prefix-payload"} {
+					for _, fl := range []int{0, 1} {
+						mode, fl := mode, fl
+						add(base, func(r *RPCPlan) { r.Backend.Resp.WriteMode, r.Backend.Resp.FlushEvery = mode, fl })
+						add(base, func(r *RPCPlan) {
+							r.Backend.Resp.WriteMode, r.Backend.Resp.FlushEvery, r.Backend.Resp.EmptyWrites = mode, fl, true
+						})
+					}
+				}
+				for _, rw := range []string{"flusherr", "unwrap"} { // (a writer that cannot flush at all is refused by the transcoder: not a segmentation)
+					rw := rw
+					add(base, func(r *RPCPlan) { r.Client.RW = rw })
+				}
+			}
+			return out
 		},
 		Oracle:     c08Oracle,
 		Components: stdComponents,
